@@ -408,7 +408,7 @@ def oneshot(prop, hashseed, kind, payload, scratch, timeout=300):
   return msg['result']['value']
 
 
-def replay_fresh(prop, doc, scratch):
+def replay_fresh(prop, doc, scratch, max_obligations=None):
   """Replay a doc in freshly exec'd interpreters; returns list of violations."""
   hs = doc['hash_seeds']
   res = oneshot(prop, hs['sut'], 'run', {'prop': prop, 'doc': doc}, scratch)
@@ -421,7 +421,7 @@ def replay_fresh(prop, doc, scratch):
                    'detail': 'event logs differ between PYTHONHASHSEED=%s and %s: %s vs %s'
                              % (hs['sut'], hs['ref'], res['log'][step:step + 1], res2['log'][step:step + 1])})
     return viol, res
-  for o in res['obligations']:
+  for o in res['obligations'][:max_obligations]:
     ans = oneshot(prop, hs['ref'], 'ref', {'prop': prop, 'ob': o['payload']}, scratch)
     one = compare_obligation(o, ans)
     if one is not None:
